@@ -187,3 +187,15 @@ claim("C16", E1 + " + " + E2,
       "jaxpr -> SMT with rank/order case splits shown exhaustive; path-forking symbolic execution for the incumbent bookkeeping",
       "DESIGN.md §3 C16")
 NOT_APPLICABLE.pop("C16", None)
+
+claim("C17", E1,
+      "Bounded symbolic check of the real GaussianMLPEnsemble (2-3 members, 1-3 outputs, vector and batch-2 inputs): member i's "
+      "base_predict / base_distribution mean, variance and stddev equal slice i of the joint pass with one variance per output "
+      "(shape failures replayed eagerly), soft log-variance bounds (lower exact, upper with analytic slack), aggregate = law of total "
+      "variance, gaussian_nll closed form, train_ensemble hands each member only its own bootstrap indices each at most once per epoch "
+      "(symbolic permutation), evaluate_plans = particle mean of horizon sums for an arbitrary linear reward model, ts_inf perturbs "
+      "each state dimension with its own predicted variance (2-copy), pendulum_reward = environment cost formula.",
+      REAL + " Index tags assumed distinct (parametricity); pendulum: arccos/cos link is a trusted lemma.",
+      "jaxpr -> SMT (axiomatised exp/log1p), two-copy non-interference, symbolic permutations with Distinct constraints",
+      "DESIGN.md §3 C17")
+NOT_APPLICABLE.pop("C17", None)
